@@ -20,11 +20,11 @@ import (
 // library call stretched so that an overlap which the locking permits is
 // observed.  Meant to be built with -race.
 //
-//   writers   WriteSlice one whole row of the shared matrix "m" with a fresh
-//             uniform value; Write their own dataset "own<i>"; Create (no-op)
-//   readers   Load "m" (whole / row selection) and check that no row is torn;
-//             Load the constant dataset "ro" with a stepped selection and
-//             compare with the in-memory slice; Shape; Exists
+//	writers   WriteSlice one whole row of the shared matrix "m" with a fresh
+//	          uniform value; Write their own dataset "own<i>"; Create (no-op)
+//	readers   Load "m" (whole / row selection) and check that no row is torn;
+//	          Load the constant dataset "ro" with a stepped selection and
+//	          compare with the in-memory slice; Shape; Exists
 //
 // Reports: MutatingOverlaps (must be 0: a library call on a writable handle
 // ran concurrently with another library call), torn rows, wrong reads, errors.
